@@ -94,6 +94,15 @@ CLAIMED = {
          "CubicSpline / LinSpline / AkimaSpline / Table on generated grids (knots, ends, between, outside), including sums of data sets and spline fits.",
          "Lean kernel + three standard axioms; translator tr_c12.py (cexpr); Eigen QR external; PARTIAL: csg_resample executable and least-squares optimality of Fit not covered.",
          "6/C12"),
+ "C04": ("Lean 4 proof (induction over frame lists and block lists, order/field arithmetic over Q) about an executable model of the whole csg_stat pipeline "
+         "that composes the C01/C02/C03/C13 models + correspondence: every number written by the real csg_stat executable on complete generated inputs is "
+         "compared with the model",
+         "Theorems: MergeWorker / Average::Process / DoCorrelations recurrences are the frame means for every frame count; the bin of a pair distance is "
+         "HistogramNew's nearest-centre bin; gmc is minus the covariance and symmetric; ideal gas gives 1 (cross) and (N-1)/N (same type); shells telescope; "
+         "bonded/three-body distributions integrate to 1; block output depends on the block's frames only. Tied to the working tree by running csg_stat "
+         "(topology XML, mapping, options, multi-frame .gro with varying boxes, IMC targets, blocks, selections, threads) and comparing all written files.",
+         "Lean kernel + three standard axioms; harness/c04.py (decimal->double, math.cos of angular boundaries); IEEE rounding not modelled (near-boundary runs skipped, tolerance 5e-8); mean-force tables and --begin not covered.",
+         "6/C04"),
 }
 REASONS = {}
 
